@@ -72,9 +72,17 @@ def expected_decl_strings(model):
 
 
 def real_decl_strings(mgr):
+    """declared dependencies / targets of the registered tasks, as printed paths.  An item or attribute taken from
+    the RESULT of an expression (divmod(x, 2)[0]) is itself listed as a dependency by xdeps; it is not a location of a
+    container and is left out of the comparison with the model."""
+    labels = tuple(mgr.containers)
+
+    def is_location(s):
+        return any(s == l or s.startswith(l + "[") or s.startswith(l + ".") for l in labels)
     out = {}
     for tid, t in mgr.tasks.items():
-        out[str(tid)] = (sorted(str(d) for d in t.dependencies), sorted(str(x) for x in t.targets))
+        out[str(tid)] = (sorted(set(s for s in (str(d) for d in t.dependencies) if is_location(s))),
+                         sorted(set(str(x) for x in t.targets)))
     return out
 
 
